@@ -7,6 +7,7 @@ from . import pseudo as P
 from .pseudo import BV, bv, bits, bit, zx, sx, cat
 from .isa import Enc, any_of, in_it_block
 from .state import St, N_, Z_, C_, V_, Q_
+from symx import core as X
 
 FAM = 'mul'
 
@@ -26,17 +27,77 @@ def badreg(*xs):
     return z3.Or(*[any_of(r4(x), 13, 15) for x in xs])
 
 
-def smul64(a, b):
-    """SInt(a) * SInt(b) as a 64-bit term (exact for operands of up to 32 bits)"""
-    return sx(a, 64) * sx(b, 64)
+# ---- integers of the pseudocode ----------------------------------------------------------------------
+# The operation pseudocode of this family computes on unbounded integers (SInt(), UInt(), *, +, <<, x<hi:lo>).
+# The oracle transcribes it on the engine's unbounded-integer term type (symx.core.SymInt: a z3 bit-vector of
+# adaptive width plus an interval), not on fixed 64-bit vectors: every intermediate term is then normalised by the
+# same constructor on both sides, and the solver never has to prove two differently-shaped 32x32 multipliers (or
+# dividers) equivalent (which it cannot do within the budget).  Only the *term representation* is shared; the
+# sequence of operations below is the manual's.
+
+def UInt(t):
+    """bit-vector term -> unsigned integer"""
+    return X.U(t)
 
 
-def umul64(a, b):
-    return zx(a, 64) * zx(b, 64)
+def SIntN(u, n):
+    """signed value of the n-bit string whose unsigned value is the integer u (0 <= u < 2^n)"""
+    if type(u) is int:
+        return u - (1 << n) if (u >> (n - 1)) & 1 else u
+    return X.mk(z3.SignExt(1, X.to_bv(u, n)), -(1 << (n - 1)), (1 << (n - 1)) - 1)
+
+
+def sl(x, hi, lo):
+    """x<hi:lo> of an integer, as an unsigned integer"""
+    return (x & ((1 << (hi + 1)) - 1)) >> lo
+
+
+def low(x, n):
+    """x<n-1:0> of an integer, as an unsigned integer"""
+    return x % (1 << n)
+
+
+def Bits(x, n):
+    """integer -> n-bit vector term (two's complement, truncating)"""
+    return X.to_bv(x, n)
+
+
+def cbit(f, name):
+    """value of a 1-bit field that `split` made concrete"""
+    v = z3.simplify(f[name])
+    assert z3.is_bv_value(v), name
+    return v.as_long()
+
+
+def split(names, sem):
+    """case-split the operation on 1-bit fields (the decoded booleans n_high, m_swap, round, ...): sem sees them as
+    constants; the resulting states are merged under the field values"""
+    def wrapped(S, f):
+        def rec(i, ff):
+            if i == len(names):
+                T = S.copy()
+                sem(T, ff)
+                return T
+            nm = names[i]
+            a = rec(i + 1, dict(ff, **{nm: BV(1, 1)}))
+            b = rec(i + 1, dict(ff, **{nm: BV(0, 1)}))
+            return St.merge(f[nm] == 1, a, b)
+        S.assign(rec(0, dict(f)))
+    return wrapped
+
+
+def ureg(S, n):
+    """UInt(R[n])"""
+    return UInt(S.reg(n if isinstance(n, int) else r4(n)))
+
+
+def sreg(S, n):
+    """SInt(R[n])"""
+    return SIntN(ureg(S, n), 32)
 
 
 def set_q_if(S, ov):
-    S.set_cbit(Q_, z3.Or(S.cbit(Q_), ov))
+    S.set_cbit(Q_, z3.Or(S.cbit(Q_), X.tobool(ov)))
 
 
 def flags_nz(S, sf, result):
@@ -50,159 +111,177 @@ def flags_nz(S, sf, result):
     S.assign(St.merge(sf, T, S))
 
 
-def half(x, high):
-    """x<31:16> if high else x<15:0>; high: 1-bit term"""
-    return z3.If(high == 1, bits(x, 31, 16), bits(x, 15, 0))
-
-
 def S_field(S, f):
     return f['S'] == 1
-
-
-# ---- operations -------------------------------------------------------------------------------------
-
-def mul_sem(d, n, m, setflags):
-    def sem(S, f):
-        result = S.reg(r4(f[n])) * S.reg(r4(f[m]))  # low 32 bits of the product (signedness irrelevant)
-        sf = setflags(S, f)
-        S.set_reg(r4(f[d]), result)
-        flags_nz(S, sf, result)
-    return sem
-
-
-def mla_sem(sub, setflags):
-    def sem(S, f):
-        prod = S.reg(f['Rn']) * S.reg(f['Rm'])
-        addend = S.reg(f['Ra'])
-        result = addend - prod if sub else prod + addend
-        sf = setflags(S, f)
-        S.set_reg(f['Rd'], result)
-        flags_nz(S, sf, result)
-    return sem
-
-
-def long_sem(kind, setflags):
-    """kind: umull umlal umaal smull smlal"""
-    def sem(S, f):
-        rn, rm = S.reg(f['Rn']), S.reg(f['Rm'])
-        hi, lo = S.reg(f['RdHi']), S.reg(f['RdLo'])
-        if kind == 'umull':
-            result = umul64(rn, rm)
-        elif kind == 'umlal':
-            result = umul64(rn, rm) + cat(hi, lo)
-        elif kind == 'umaal':
-            result = umul64(rn, rm) + zx(hi, 64) + zx(lo, 64)
-        elif kind == 'smull':
-            result = smul64(rn, rm)
-        elif kind == 'smlal':
-            result = smul64(rn, rm) + cat(hi, lo)
-        else:
-            raise AssertionError(kind)
-        sf = setflags(S, f)
-        S.set_reg(f['RdHi'], bits(result, 63, 32))
-        S.set_reg(f['RdLo'], bits(result, 31, 0))
-        flags_nz(S, sf, result)
-    return sem
 
 
 def no_flags(S, f):
     return False
 
 
+# ---- operations -------------------------------------------------------------------------------------
+
+def mul_sem(d, n, m, setflags):
+    def sem(S, f):
+        result = sreg(S, f[n]) * sreg(S, f[m])
+        sf = setflags(S, f)
+        r32 = Bits(low(result, 32), 32)
+        S.set_reg(r4(f[d]), r32)
+        flags_nz(S, sf, r32)
+    return sem
+
+
+def mla_sem(sub, setflags):
+    def sem(S, f):
+        operand1, operand2, addend = sreg(S, f['Rn']), sreg(S, f['Rm']), sreg(S, f['Ra'])
+        result = addend - operand1 * operand2 if sub else operand1 * operand2 + addend
+        sf = setflags(S, f)
+        r32 = Bits(low(result, 32), 32)
+        S.set_reg(f['Rd'], r32)
+        flags_nz(S, sf, r32)
+    return sem
+
+
+def write_long(S, f, result, setflags):
+    """R[dHi] = result<63:32>; R[dLo] = result<31:0>; flags from result<63:0>"""
+    sf = setflags(S, f)
+    r64 = low(result, 64)
+    S.set_reg(f['RdHi'], Bits(sl(r64, 63, 32), 32))
+    S.set_reg(f['RdLo'], Bits(sl(r64, 31, 0), 32))
+    flags_nz(S, sf, Bits(r64, 64))
+
+
+def acc64(S, f):
+    """UInt(R[dHi]:R[dLo])"""
+    return (ureg(S, f['RdHi']) << 32) | ureg(S, f['RdLo'])
+
+
+def long_sem(kind, setflags):
+    """kind: umull umlal umaal smull smlal"""
+    def sem(S, f):
+        if kind == 'umull':
+            result = ureg(S, f['Rn']) * ureg(S, f['Rm'])
+        elif kind == 'umlal':
+            result = ureg(S, f['Rn']) * ureg(S, f['Rm']) + acc64(S, f)
+        elif kind == 'umaal':
+            result = ureg(S, f['Rn']) * ureg(S, f['Rm']) + ureg(S, f['RdHi']) + ureg(S, f['RdLo'])
+        elif kind == 'smull':
+            result = sreg(S, f['Rn']) * sreg(S, f['Rm'])
+        elif kind == 'smlal':
+            result = sreg(S, f['Rn']) * sreg(S, f['Rm']) + SIntN(acc64(S, f), 64)
+        else:
+            raise AssertionError(kind)
+        write_long(S, f, result, setflags)
+    return sem
+
+
+def half_operand(S, f, reg, sel):
+    x = ureg(S, f[reg])
+    return SIntN(sl(x, 31, 16) if cbit(f, sel) else sl(x, 15, 0), 16)
+
+
 def smlaxy_sem(acc):
     """SMULxy / SMLAxy"""
     def sem(S, f):
-        op1 = half(S.reg(f['Rn']), f['N'])
-        op2 = half(S.reg(f['Rm']), f['M'])
-        result = smul64(op1, op2)
+        operand1 = half_operand(S, f, 'Rn', 'N')
+        operand2 = half_operand(S, f, 'Rm', 'M')
+        result = operand1 * operand2
         if acc:
-            result = result + sx(S.reg(f['Ra']), 64)
-        r32 = bits(result, 31, 0)
-        S.set_reg(f['Rd'], r32)
+            result = result + sreg(S, f['Ra'])
+        out = low(result, 32)
+        S.set_reg(f['Rd'], Bits(out, 32))
         if acc:
-            set_q_if(S, result != sx(r32, 64))
-    return sem
+            set_q_if(S, result != SIntN(out, 32))
+    return split(['N', 'M'], sem)
 
 
 def smlawy_sem(acc):
     """SMULWy / SMLAWy"""
     def sem(S, f):
-        op2 = half(S.reg(f['Rm']), f['M'])
-        result = smul64(S.reg(f['Rn']), op2)
+        operand2 = half_operand(S, f, 'Rm', 'M')
+        result = sreg(S, f['Rn']) * operand2
         if acc:
-            result = result + (sx(S.reg(f['Ra']), 64) << 16)
-        r32 = bits(result, 47, 16)
-        S.set_reg(f['Rd'], r32)
+            result = result + (sreg(S, f['Ra']) << 16)
+        out = sl(low(result, 48), 47, 16)
+        S.set_reg(f['Rd'], Bits(out, 32))
         if acc:
-            set_q_if(S, (result >> 16) != sx(r32, 64))
-    return sem
+            set_q_if(S, (result >> 16) != SIntN(out, 32))
+    return split(['M'], sem)
 
 
-def smlalxy_sem(S, f):
-    op1 = half(S.reg(f['Rn']), f['N'])
-    op2 = half(S.reg(f['Rm']), f['M'])
-    result = smul64(op1, op2) + cat(S.reg(f['RdHi']), S.reg(f['RdLo']))
-    S.set_reg(f['RdHi'], bits(result, 63, 32))
-    S.set_reg(f['RdLo'], bits(result, 31, 0))
+def smlalxy_sem_(S, f):
+    operand1 = half_operand(S, f, 'Rn', 'N')
+    operand2 = half_operand(S, f, 'Rm', 'M')
+    result = operand1 * operand2 + SIntN(acc64(S, f), 64)
+    write_long(S, f, result, no_flags)
+
+
+smlalxy_sem = split(['N', 'M'], smlalxy_sem_)
+
+
+def ror16(x):
+    """ROR(x, 16) of a 32-bit value given as unsigned integer: LSR(x, 16) OR LSL(x, 16)"""
+    return (x >> 16) | low(x << 16, 32)
 
 
 def dual_products(S, f):
-    rn = S.reg(f['Rn'])
-    rm = S.reg(f['Rm'])
-    operand2 = z3.If(f['M'] == 1, z3.RotateRight(rm, 16), rm)
-    p1 = smul64(bits(rn, 15, 0), bits(operand2, 15, 0))
-    p2 = smul64(bits(rn, 31, 16), bits(operand2, 31, 16))
-    return p1, p2
+    rm = ureg(S, f['Rm'])
+    operand2 = ror16(rm) if cbit(f, 'M') else rm
+    rn = ureg(S, f['Rn'])
+    product1 = SIntN(sl(rn, 15, 0), 16) * SIntN(sl(operand2, 15, 0), 16)
+    product2 = SIntN(sl(rn, 31, 16), 16) * SIntN(sl(operand2, 31, 16), 16)
+    return product1, product2
 
 
 def dual_sem(sub, acc):
     """SMUAD SMUSD SMLAD SMLSD"""
     def sem(S, f):
-        p1, p2 = dual_products(S, f)
-        result = p1 - p2 if sub else p1 + p2
+        product1, product2 = dual_products(S, f)
+        result = product1 - product2 if sub else product1 + product2
         if acc:
-            result = result + sx(S.reg(f['Ra']), 64)
-        r32 = bits(result, 31, 0)
-        S.set_reg(f['Rd'], r32)
+            result = result + sreg(S, f['Ra'])
+        out = low(result, 32)
+        S.set_reg(f['Rd'], Bits(out, 32))
         if acc or not sub:  # SMUSD cannot overflow (and its pseudocode does not touch Q)
-            set_q_if(S, result != sx(r32, 64))
-    return sem
+            set_q_if(S, result != SIntN(out, 32))
+    return split(['M'], sem)
 
 
 def dual_long_sem(sub):
     """SMLALD SMLSLD"""
     def sem(S, f):
-        p1, p2 = dual_products(S, f)
-        result = (p1 - p2 if sub else p1 + p2) + cat(S.reg(f['RdHi']), S.reg(f['RdLo']))
-        S.set_reg(f['RdHi'], bits(result, 63, 32))
-        S.set_reg(f['RdLo'], bits(result, 31, 0))
-    return sem
+        product1, product2 = dual_products(S, f)
+        result = (product1 - product2 if sub else product1 + product2) + SIntN(acc64(S, f), 64)
+        write_long(S, f, result, no_flags)
+    return split(['M'], sem)
 
 
 def smm_sem(kind):
     """SMMUL SMMLA SMMLS"""
     def sem(S, f):
-        prod = smul64(S.reg(f['Rn']), S.reg(f['Rm']))
         if kind == 'mul':
-            result = prod
+            result = sreg(S, f['Rn']) * sreg(S, f['Rm'])
+        elif kind == 'mla':
+            result = (sreg(S, f['Ra']) << 32) + sreg(S, f['Rn']) * sreg(S, f['Rm'])
         else:
-            a = cat(S.reg(f['Ra']), BV(0, 32))  # SInt(R[a]) << 32  (mod 2^64)
-            result = a + prod if kind == 'mla' else a - prod
-        result = z3.If(f['R'] == 1, result + BV(0x80000000, 64), result)
-        S.set_reg(f['Rd'], bits(result, 63, 32))
-    return sem
+            result = (sreg(S, f['Ra']) << 32) - sreg(S, f['Rn']) * sreg(S, f['Rm'])
+        if cbit(f, 'R'):
+            result = result + 0x80000000
+        S.set_reg(f['Rd'], Bits(sl(low(result, 64), 63, 32), 32))
+    return split(['R'], sem)
 
 
 def div_sem(signed):
     """SDIV / UDIV: RoundTowardsZero(n / m); divisor zero -> 0 (IntegerZeroDivideTrappingEnabled() is FALSE: it needs
     the ARMv7-R profile with SCTLR.DZ == 1, the configuration under test is not R profile)"""
     def sem(S, f):
-        n, m = S.reg(f['Rn']), S.reg(f['Rm'])
-        if signed:
-            q = bits(sx(n, 33) / sx(m, 33), 31, 0)  # bvsdiv truncates toward zero; 33 bits hold INT_MIN / -1
-        else:
-            q = z3.UDiv(n, m)
-        S.set_reg(f['Rd'], z3.If(m == 0, BV(0, 32), q))
+        n = sreg(S, f['Rn']) if signed else ureg(S, f['Rn'])
+        m = sreg(S, f['Rm']) if signed else ureg(S, f['Rm'])
+        if type(m) is int and m == 0:
+            S.set_reg(f['Rd'], BV(0, 32))
+            return
+        q = X.exact_div(n, m, floor=False)  # exact quotient rounded toward zero (value irrelevant when m == 0)
+        S.set_reg(f['Rd'], z3.If(S.reg(f['Rm']) == 0, BV(0, 32), Bits(low(q, 32), 32)))
     return sem
 
 
